@@ -248,8 +248,12 @@ def parse_tlc(outp):
     m2 = re.search(r"Error: Action property (\S+) is violated", txt)
     if m2 and not res["violated"]:
         res["violated"] = m2.group(1)
-    if not res["violated"] and "Temporal properties were violated" in txt:
-        res["violated"] = "temporal"
+    if not res["violated"]:
+        m3 = re.search(r"Error: Temporal propert(?:y|ies) (.*?) (?:was|were) violated", txt)
+        if m3:
+            res["violated"] = "temporal:" + m3.group(1)
+        elif "Temporal properties were violated" in txt:
+            res["violated"] = "temporal"
     if not res["violated"] and "Error: Deadlock reached" in txt:
         res["violated"] = "deadlock"
     if not res["violated"] and re.search(r"Error: The postcondition|Postcondition.*violated|POSTCONDITION", txt) \
